@@ -307,6 +307,14 @@ from extract_collect import collect_section  # C13
 EXTRA_SECTIONS.append(collect_section)  # C13
 
 
+def _buildtop_section():
+    import extract_buildtop
+    return extract_buildtop.section()
+
+
+EXTRA_SECTIONS.append(_buildtop_section)
+
+
 def main(write: bool = True) -> int:
     try:
         txt = generate()
